@@ -76,21 +76,18 @@ Proof.
   destruct dv, dw, dg, ds; simpl; intros; try reflexivity; try discriminate.
 Qed.
 
-Lemma goja_to_prop_eq : forall d, desc_invalid d = false -> undef_accessor d = false ->
-  goja_to_prop (complete d) = to_prop (complete d).
+Lemma goja_to_prop_eq : forall d, goja_to_prop d = to_prop d.
 Proof.
-  intros [dv dw de dc dg ds]; unfold desc_invalid, undef_accessor, goja_to_prop, to_prop, complete, is_accessor, is_data, od, ob;
-  simpl. destruct dg as [[g|]|], ds as [[s|]|], dv, dw; simpl; intros; try reflexivity; try discriminate.
+  intros [dv dw de dc dg ds]; unfold goja_to_prop, to_prop, is_accessor, od, ob; simpl.
+  destruct dg, ds; reflexivity.
 Qed.
 
-Lemma gopd_eq_partial : forall r cur ext,
-  match r with GDesc d => undef_accessor d = false | GUndef | GNonObj => True end ->
-  goja_gopd r cur ext = spec_gopd r cur ext.
+Lemma gopd_eq : forall r cur ext, goja_gopd r cur ext = spec_gopd r cur ext.
 Proof.
-  intros [|d|] cur ext H; try reflexivity.
+  intros [|d|] cur ext; try reflexivity.
   unfold goja_gopd, spec_gopd. destruct (desc_invalid d) eqn:Hinv; [reflexivity|].
   rewrite (compat_eq ext (complete d) cur (complete_valid d Hinv)).
-  rewrite (goja_to_prop_eq d Hinv H). reflexivity.
+  rewrite goja_to_prop_eq. reflexivity.
 Qed.
 
 Lemma define_eq : forall d (r : bool) cur ext,
